@@ -1182,13 +1182,13 @@ impl Formatter {
         for cell in cells {
             row.push_str(" ");
             row.push_str(&f(cell));
-            row.push_str(" |");
+            row.push_str("|");
         }
         row
     }
 
     // Render header
-    let header_line = render_row(&node.header, &mut |p| self.paragraph(p));
+    let header_line = render_row(&node.header, &mut |p| self.inline_paragraph(p));
 
     // Render alignment row
     let mut align_line = String::from("|");
@@ -1204,15 +1204,17 @@ impl Formatter {
     // Render body rows
     let mut body_lines = vec![];
     for row in &node.rows {
-        body_lines.push(render_row(row, &mut |p| self.paragraph(p)));
+        body_lines.push(render_row(row, &mut |p| self.inline_paragraph(p)));
     }
 
     // Join everything
     let mut markdown = String::new();
-    markdown.push_str(&header_line);
-    markdown.push('\n');
-    markdown.push_str(&align_line);
-    markdown.push('\n');
+    if !node.header.is_empty() {
+      markdown.push_str(&header_line);
+      markdown.push('\n');
+      markdown.push_str(&align_line);
+      markdown.push('\n');
+    }
     for line in body_lines {
         markdown.push_str(&line);
         markdown.push('\n');
